@@ -29,7 +29,15 @@ SWAPS = [(r'<=', '<'), (r'>=', '>'), (r'(?<![<>=!:])<(?![<=-])', '<='), (r'(?<![
          (r'\.Left\b', '.Right'), (r'\.Right\b', '.Left'), (r'\.next\b', '.prev'), (r'\.prev\b', '.next'),
          (r'\.first\b', '.last'), (r'\.last\b', '.first'), (r'\btrue\b', 'false'), (r'\bfalse\b', 'true'),
          (r'\+\+', '--'), (r'--', '++'), (r'\[0\]', '[1]'), (r'\[1\]', '[0]'), (r'\bred\b', 'black'), (r'\bblack\b', 'red'),
-         (r'/ 2\b', '/ 2 + 1'), (r'\* 2\b', '* 2 + 1')]
+         (r'/ 2\b', '/ 2 + 1'), (r'\* 2\b', '* 2 + 1'),
+         # probe 3: method-name swaps, argument swaps, negation removal, index shifts, break/continue
+         (r'\.Next\(\)', '.Prev()'), (r'\.Prev\(\)', '.Next()'), (r'\.First\(\)', '.Last()'), (r'\.Last\(\)', '.First()'),
+         (r'\.Begin\(\)', '.End()'), (r'\.End\(\)', '.Begin()'), (r'\.Left\(\)', '.Right()'), (r'\.Right\(\)', '.Left()'),
+         (r'\.Append\(', '.Prepend('), (r'\.Prepend\(', '.Append('), (r'\bFloor\(', 'Ceiling('), (r'\bCeiling\(', 'Floor('),
+         (r'\bbreak\b', 'continue'), (r'\bcontinue\b', 'break'), (r'!(?=[a-zA-Z(])', ''),
+         (r'\[(\w+)\]', r'[\1+1]'), (r'\[(\w+)\]', r'[\1-1]'), (r'\((\w+), (\w+)\)', r'(\2, \1)'),
+         (r'\blen\((\w+(?:\.\w+)*)\)', r'len(\1)-1'), (r'\.Size\(\)', '.Size()-1'), (r'\.Size\(\)', '.Size()+1'),
+         (r'\b0\b', '1'), (r'\b1\b', '0'), (r'\b1\b', '2')]
 muts = []
 for f in files:
     lines = open(os.path.join(REPO, f)).read().split('\n')
@@ -47,7 +55,7 @@ for f in files:
                 # not inside a string literal
                 if code[:m.start()].count('"') % 2 == 1:
                     continue
-                new = code[:m.start()] + rep + code[m.end():] + ln[len(code):]
+                new = code[:m.start()] + m.expand(rep) + code[m.end():] + ln[len(code):]
                 muts.append((f, i, new, f'{pat}->{rep}@{m.start()}'))
         s = code.strip()
         if re.match(r'^[\w\.\[\]\*\(\)]+(\.[\w\[\]]+)* (=|\+=|-=) [^=].*$', s) and ':=' not in s and not s.startswith(('return', 'if', 'for', 'case', 'switch')):
